@@ -1,6 +1,7 @@
 (* Proofs/ParadigmOps.v — the stream-level graph operations commute with concatenation
    (property C04, operation level): copy, merge of key-disjoint map chunks (every
-   order-preserving interleaving), output-key wrap, input-key filter. *)
+   order-preserving interleaving), output-key wrap, input-key filter — for chunks that are
+   strings or maps nested to any depth. *)
 From Eino Require Import Base.Util Model.Paradigm Model.StreamOps Proofs.Paradigm.
 From Coq Require Import Lia.
 
@@ -20,30 +21,141 @@ Proof.
   unfold concat_strings. induction a; simpl; auto. rewrite IHa, app_assoc_s. reflexivity.
 Qed.
 
+(* ------------------------------------------------------------------ the order of the keys *)
+Lemma kcmp_refl a : kcmp a a = Eq.
+Proof. induction a; simpl; auto. rewrite N.compare_refl. exact IHa. Qed.
+
+Lemma kcmp_eq a : forall b, kcmp a b = Eq -> a = b.
+Proof.
+  induction a as [| |k r IH]; intros [| |k' r']; simpl; intros H; try discriminate; auto.
+  destruct (N.compare_spec k k'); try discriminate. subst. f_equal. apply IH, H.
+Qed.
+
+Lemma kcmp_antisym a : forall b, kcmp b a = CompOpp (kcmp a b).
+Proof.
+  induction a as [| |k r IH]; intros [| |k' r']; simpl; auto.
+  rewrite (N.compare_antisym k k'). destruct (N.compare k k'); simpl; auto.
+Qed.
+
+Lemma kcmp_trans a : forall b c, kcmp a b = Lt -> kcmp b c = Lt -> kcmp a c = Lt.
+Proof.
+  induction a as [| |k r IH]; intros [| |k' r'] [| |k'' r'']; simpl; intros H1 H2; try discriminate; auto.
+  destruct (N.compare_spec k k'); try discriminate;
+    destruct (N.compare_spec k' k''); try discriminate; subst.
+  - rewrite N.compare_refl. eapply IH; eauto.
+  - destruct (N.compare_spec k' k''); try lia. reflexivity.
+  - destruct (N.compare_spec k k''); try lia. reflexivity.
+  - destruct (N.compare_spec k k''); try lia. reflexivity.
+Qed.
+
+Definition tlt (a b : tkey) : Prop := tcmp a b = Lt.
+
+Lemma tcmp_refl a : tcmp a a = Eq.
+Proof. unfold tcmp. rewrite N.compare_refl. apply kcmp_refl. Qed.
+
+Lemma tcmp_eq a b : tcmp a b = Eq -> a = b.
+Proof.
+  destruct a as [k r], b as [k' r']. unfold tcmp. simpl.
+  destruct (N.compare_spec k k') as [E|E|E]; try discriminate. intros H. subst. f_equal. apply kcmp_eq, H.
+Qed.
+
+Lemma tcmp_antisym a b : tcmp b a = CompOpp (tcmp a b).
+Proof.
+  destruct a as [k r], b as [k' r']. unfold tcmp. simpl.
+  rewrite (N.compare_antisym k k'). destruct (N.compare k k'); simpl; auto. apply kcmp_antisym.
+Qed.
+
+Lemma tlt_trans a b c : tlt a b -> tlt b c -> tlt a c.
+Proof.
+  destruct a as [k r], b as [k' r'], c as [k'' r'']. unfold tlt, tcmp. simpl.
+  destruct (N.compare_spec k k'); try discriminate;
+    destruct (N.compare_spec k' k''); try discriminate; subst; intros H1 H2.
+  - rewrite N.compare_refl. eapply kcmp_trans; eauto.
+  - destruct (N.compare_spec k' k''); try lia. reflexivity.
+  - destruct (N.compare_spec k k''); try lia. reflexivity.
+  - destruct (N.compare_spec k k''); try lia. reflexivity.
+Qed.
+
+Lemma tlt_irrefl a : ~ tlt a a.
+Proof. unfold tlt. rewrite tcmp_refl. discriminate. Qed.
+
+Lemma tlt_total a b : tlt a b \/ a = b \/ tlt b a.
+Proof.
+  unfold tlt. rewrite (tcmp_antisym a b). destruct (tcmp a b) eqn:E; simpl; auto.
+  right. left. apply tcmp_eq, E.
+Qed.
+
+Lemma tlt_nlt a b : ~ tlt a b -> a = b \/ tlt b a.
+Proof. intros H. destruct (tlt_total a b) as [?|[?|?]]; auto. contradiction. Qed.
+
+Lemma tltb_spec a b : BoolSpec (tlt a b) (~ tlt a b) (tltb a b).
+Proof.
+  unfold tltb, tlt. destruct (tcmp a b); constructor; auto; discriminate.
+Qed.
+
+Lemma teqb_spec a b : reflect (a = b) (teqb a b).
+Proof.
+  unfold teqb. destruct (tcmp a b) eqn:E; constructor.
+  - apply tcmp_eq, E.
+  - intros ->. rewrite tcmp_refl in E. discriminate.
+  - intros ->. rewrite tcmp_refl in E. discriminate.
+Qed.
+
+Lemma teqb_refl a : teqb a a = true.
+Proof. unfold teqb. rewrite tcmp_refl. reflexivity. Qed.
+
+Lemma tltb_irrefl a : tltb a a = false.
+Proof. unfold tltb. rewrite tcmp_refl. reflexivity. Qed.
+
+(* order reasoning over a handful of keys: negative facts become "equal or greater", then
+   look for a cycle *)
+Ltac tord_close :=
+  solve [ congruence
+        | match goal with
+          | H : tlt ?a ?a |- _ => exfalso; exact (tlt_irrefl a H)
+          | H1 : tlt ?a ?b, H2 : tlt ?b ?a |- _ =>
+              exfalso; exact (tlt_irrefl a (tlt_trans a b a H1 H2))
+          | H1 : tlt ?a ?b, H2 : tlt ?b ?c, H3 : tlt ?c ?a |- _ =>
+              exfalso; exact (tlt_irrefl a (tlt_trans a c a (tlt_trans a b c H1 H2) H3))
+          | H1 : tlt ?a ?b, H2 : tlt ?b ?c |- tlt ?a ?c => exact (tlt_trans a b c H1 H2)
+          | H : tlt ?a ?b |- tlt ?a ?b => exact H
+          | H : tlt ?a ?b |- ?a <> ?b => let E := fresh in intro E; rewrite E in H; exact (tlt_irrefl _ H)
+          | H : tlt ?a ?b |- ?b <> ?a => let E := fresh in intro E; rewrite E in H; exact (tlt_irrefl _ H)
+          end ].
+
+Ltac tord :=
+  try subst;
+  repeat match goal with
+         | H : ~ tlt ?a ?b |- _ =>
+             let H' := fresh in
+             pose proof (tlt_nlt a b H) as H'; clear H; destruct H' as [H'|H']; [try subst|]
+         end;
+  tord_close.
+
 (* ------------------------------------------------------------------ association lists *)
 Lemma ins_comm k1 v1 k2 v2 m :
   k1 <> k2 -> ins k1 v1 (ins k2 v2 m) = ins k2 v2 (ins k1 v1 m).
 Proof.
   intros Hne. induction m as [|[k v] m IH]; simpl.
-  - destruct (N.ltb_spec k1 k2), (N.ltb_spec k2 k1), (N.eqb_spec k1 k2), (N.eqb_spec k2 k1);
-      try lia; try congruence; reflexivity.
-  - destruct (N.ltb_spec k2 k), (N.eqb_spec k2 k), (N.ltb_spec k1 k), (N.eqb_spec k1 k);
+  - destruct (tltb_spec k1 k2), (tltb_spec k2 k1), (teqb_spec k1 k2), (teqb_spec k2 k1);
+      try congruence; try reflexivity; tord.
+  - destruct (tltb_spec k2 k), (teqb_spec k2 k), (tltb_spec k1 k), (teqb_spec k1 k);
       simpl;
       repeat match goal with
-             | |- context [N.ltb ?a ?b] => destruct (N.ltb_spec a b)
-             | |- context [N.eqb ?a ?b] => destruct (N.eqb_spec a b)
-             end; try lia; try congruence; try reflexivity.
+             | |- context [tltb ?a ?b] => destruct (tltb_spec a b)
+             | |- context [teqb ?a ?b] => destruct (teqb_spec a b)
+             end; try congruence; try reflexivity; try (subst; tord).
 Qed.
 
 Lemma ins_same k v1 v2 m : ins k v2 (ins k v1 m) = ins k (String.append v1 v2) m.
 Proof.
   induction m as [|[k' v'] m IH]; simpl.
-  - rewrite N.ltb_irrefl, N.eqb_refl. reflexivity.
-  - destruct (N.ltb_spec k k'); simpl.
-    + rewrite N.ltb_irrefl, N.eqb_refl. reflexivity.
-    + destruct (N.eqb_spec k k'); simpl.
-      * subst. rewrite N.ltb_irrefl, N.eqb_refl, app_assoc_s. reflexivity.
-      * destruct (N.ltb_spec k k'); [lia|]. destruct (N.eqb_spec k k'); [congruence|].
+  - rewrite tltb_irrefl, teqb_refl. reflexivity.
+  - destruct (tltb_spec k k'); simpl.
+    + rewrite tltb_irrefl, teqb_refl. reflexivity.
+    + destruct (teqb_spec k k'); simpl.
+      * subst. rewrite tltb_irrefl, teqb_refl, app_assoc_s. reflexivity.
+      * destruct (tltb_spec k k'); [contradiction|]. destruct (teqb_spec k k'); [congruence|].
         rewrite IH. reflexivity.
 Qed.
 
@@ -85,8 +197,8 @@ Lemma keys_ins x k v m : In x (mkeys (ins k v m)) <-> x = k \/ In x (mkeys m).
 Proof.
   induction m as [|[k2 v2] m IH]; simpl.
   - intuition.
-  - destruct (N.ltb_spec k k2); simpl; [intuition|].
-    destruct (N.eqb_spec k k2); simpl; [subst; intuition|].
+  - destruct (tltb_spec k k2); simpl; [intuition|].
+    destruct (teqb_spec k k2); simpl; [subst; intuition|].
     rewrite IH. intuition.
 Qed.
 
@@ -99,18 +211,18 @@ Qed.
 
 Inductive sorted : amap -> Prop :=
 | sorted_nil : sorted []
-| sorted_cons : forall k v m, sorted m -> (forall k', In k' (mkeys m) -> (k < k')%N) -> sorted ((k, v) :: m).
+| sorted_cons : forall k v m, sorted m -> (forall k', In k' (mkeys m) -> tlt k k') -> sorted ((k, v) :: m).
 
 Lemma sorted_ins k v m : sorted m -> sorted (ins k v m).
 Proof.
   induction 1 as [|k2 v2 m Hs IH Hlt]; simpl.
   - constructor; [constructor|]. intros ? [].
-  - destruct (N.ltb_spec k k2).
+  - destruct (tltb_spec k k2).
     + constructor; [constructor; auto|]. simpl. intros k' [<-|Hk']; auto.
-      specialize (Hlt _ Hk'). lia.
-    + destruct (N.eqb_spec k k2).
+      specialize (Hlt _ Hk'). tord.
+    + destruct (teqb_spec k k2).
       * subst. constructor; auto.
-      * constructor; auto. intros k' Hk'. apply keys_ins in Hk' as [->|Hk']; [lia|auto].
+      * constructor; auto. intros k' Hk'. apply keys_ins in Hk' as [->|Hk']; [tord|auto].
 Qed.
 
 Lemma sorted_ins_all es m : sorted m -> sorted (ins_all es m).
@@ -123,7 +235,7 @@ Lemma mhas_in k m : mhas k m = true <-> In k (mkeys m).
 Proof.
   induction m as [|[k2 v2] m IH]; simpl.
   - intuition discriminate.
-  - rewrite Bool.orb_true_iff, IH, N.eqb_eq. intuition.
+  - rewrite Bool.orb_true_iff, IH. destruct (teqb_spec k k2); intuition; discriminate.
 Qed.
 
 Lemma mhas_notin k m : mhas k m = false <-> ~ In k (mkeys m).
@@ -132,40 +244,40 @@ Proof. rewrite <- mhas_in. destruct (mhas k m); intuition discriminate. Qed.
 Lemma mgather_notin k m : ~ In k (mkeys m) -> mgather k m = EmptyString.
 Proof.
   induction m as [|[k2 v2] m IH]; simpl; auto. intros H.
-  destruct (N.eqb_spec k k2); [subst; exfalso; auto|]. apply IH. auto.
+  destruct (teqb_spec k k2); [subst; exfalso; auto|]. apply IH. auto.
 Qed.
 
-Lemma mhas_ins k k' v m : mhas k (ins k' v m) = N.eqb k k' || mhas k m.
+Lemma mhas_ins k k' v m : mhas k (ins k' v m) = teqb k k' || mhas k m.
 Proof.
   induction m as [|[k2 v2] m IH]; simpl.
   - rewrite Bool.orb_false_r. reflexivity.
-  - destruct (N.ltb_spec k' k2); simpl; auto.
-    destruct (N.eqb_spec k' k2); simpl.
-    + subst. destruct (N.eqb k k2); reflexivity.
-    + rewrite IH. destruct (N.eqb k k'), (N.eqb k k2); reflexivity.
+  - destruct (tltb_spec k' k2); simpl; auto.
+    destruct (teqb_spec k' k2); simpl.
+    + subst. destruct (teqb k k2); reflexivity.
+    + rewrite IH. destruct (teqb k k'), (teqb k k2); reflexivity.
 Qed.
 
 Lemma mgather_ins k k' v m : sorted m ->
-  mgather k (ins k' v m) = if N.eqb k k' then String.append (mgather k m) v else mgather k m.
+  mgather k (ins k' v m) = if teqb k k' then String.append (mgather k m) v else mgather k m.
 Proof.
   induction 1 as [|k2 v2 m Hs IH Hlt]; simpl.
-  - destruct (N.eqb k k'); simpl; auto. rewrite app_nil_r_s. reflexivity.
-  - destruct (N.ltb_spec k' k2); simpl.
-    + destruct (N.eqb_spec k k'); simpl; auto. subst.
-      destruct (N.eqb_spec k' k2); [lia|].
-      rewrite (mgather_notin k' m), app_nil_r_s; auto.
-      intro Hin. specialize (Hlt _ Hin). lia.
-    + destruct (N.eqb_spec k' k2); simpl.
-      * subst. destruct (N.eqb_spec k k2); auto. subst.
-        rewrite (mgather_notin k2 m), !app_nil_r_s; auto.
-        intro Hin. specialize (Hlt _ Hin). lia.
-      * rewrite IH. destruct (N.eqb_spec k k'), (N.eqb_spec k k2); subst; try congruence; auto.
+  - destruct (teqb k k'); simpl; auto. rewrite app_nil_r_s. reflexivity.
+  - destruct (tltb_spec k' k2); simpl.
+    + destruct (teqb_spec k k'); simpl; auto. subst.
+      destruct (teqb_spec k' k2); [tord|].
+      rewrite (mgather_notin k' m), app_nil_r_s; auto;
+        intro Hin; specialize (Hlt _ Hin); tord.
+    + destruct (teqb_spec k' k2); simpl.
+      * subst. destruct (teqb_spec k k2); auto. subst.
+        rewrite (mgather_notin k2 m), !app_nil_r_s; auto;
+          intro Hin; specialize (Hlt _ Hin); tord.
+      * rewrite IH. destruct (teqb_spec k k'), (teqb_spec k k2); subst; try congruence; auto.
 Qed.
 
 Lemma mgather_app k a b : mgather k (a ++ b) = String.append (mgather k a) (mgather k b).
 Proof.
   induction a as [|[k2 v2] a IH]; simpl; auto.
-  destruct (N.eqb k k2); auto. rewrite IH, app_assoc_s. reflexivity.
+  destruct (teqb k k2); auto. rewrite IH, app_assoc_s. reflexivity.
 Qed.
 
 Lemma mhas_app k a b : mhas k (a ++ b) = mhas k a || mhas k b.
@@ -176,7 +288,7 @@ Proof.
   revert m. induction es as [|[k2 v2] es IH]; intros m; simpl.
   - rewrite Bool.orb_false_r. reflexivity.
   - rewrite ins_all_cons, IH, mhas_ins. simpl.
-    destruct (N.eqb k k2), (mhas k m), (mhas k es); reflexivity.
+    destruct (teqb k k2), (mhas k m), (mhas k es); reflexivity.
 Qed.
 
 Lemma mgather_ins_all k es m : sorted m ->
@@ -186,7 +298,7 @@ Proof.
   - rewrite app_nil_r_s. reflexivity.
   - rewrite ins_all_cons, IH by (apply sorted_ins, Hs). simpl.
     rewrite mgather_ins by exact Hs.
-    destruct (N.eqb k k2); auto. rewrite app_assoc_s. reflexivity.
+    destruct (teqb k k2); auto. rewrite app_assoc_s. reflexivity.
 Qed.
 
 (* re-inserting a sorted map entry by entry = inserting the raw entries it was built from *)
@@ -194,15 +306,15 @@ Lemma ins_all_ins_sorted k v c m : sorted c ->
   ins_all (ins k v c) m = ins k v (ins_all c m).
 Proof.
   intros Hs. revert m. induction Hs as [|k2 v2 c Hs IH Hlt]; intros m; simpl; auto.
-  destruct (N.ltb_spec k k2).
+  destruct (tltb_spec k k2).
   - rewrite !ins_all_cons. simpl fst; simpl snd.
     rewrite <- ins_all_cons with (e := (k2, v2)).
     change (ins_all ((k2, v2) :: c) (ins k v m) = ins k v (ins_all ((k2, v2) :: c) m)).
-    apply ins_all_ins_comm. simpl. intros [->|Hin]; [lia|]. specialize (Hlt _ Hin). lia.
-  - destruct (N.eqb_spec k k2).
+    apply ins_all_ins_comm. simpl. intros [->|Hin]; [tord|]. specialize (Hlt _ Hin). tord.
+  - destruct (teqb_spec k k2).
     + subst. rewrite !ins_all_cons. simpl fst; simpl snd.
       rewrite <- ins_same. apply ins_all_ins_comm.
-      intro Hin. specialize (Hlt _ Hin). lia.
+      intro Hin. specialize (Hlt _ Hin). tord.
     + rewrite !ins_all_cons. simpl fst; simpl snd. apply IH.
 Qed.
 
@@ -217,6 +329,84 @@ Qed.
 Lemma ins_all_canon0 b m : ins_all (ins_all b []) m = ins_all b m.
 Proof. rewrite ins_all_canon by constructor. reflexivity. Qed.
 
+(* a sorted map is its own canonical form *)
+Lemma ins_last k v acc : (forall k', In k' (mkeys acc) -> tlt k' k) -> ins k v acc = acc ++ [(k, v)].
+Proof.
+  induction acc as [|[k2 v2] acc IH]; simpl; intros H; auto.
+  assert (tlt k2 k) by (apply H; auto).
+  destruct (tltb_spec k k2); [tord|]. destruct (teqb_spec k k2); [tord|].
+  rewrite IH; auto.
+Qed.
+
+Lemma ins_all_sorted_app m : sorted m -> forall acc,
+  (forall a b, In a (mkeys acc) -> In b (mkeys m) -> tlt a b) -> ins_all m acc = acc ++ m.
+Proof.
+  induction 1 as [|k v m Hs IH Hlt]; intros acc Hacc.
+  - rewrite app_nil_r. reflexivity.
+  - rewrite ins_all_cons. cbn [fst snd].
+    rewrite ins_last by (intros k' Hk'; apply Hacc; simpl; auto).
+    rewrite IH.
+    + rewrite <- app_assoc. reflexivity.
+    + intros a b Ha Hb. unfold mkeys in Ha. rewrite map_app in Ha. apply in_app_or in Ha as [Ha|Ha].
+      * apply Hacc; simpl; auto.
+      * simpl in Ha. destruct Ha as [<-|[]]. apply Hlt, Hb.
+Qed.
+
+Lemma ins_all_sorted m : sorted m -> ins_all m [] = m.
+Proof. intros H. apply (ins_all_sorted_app m H []). intros a b []. Qed.
+
+Lemma ins_first k v m : (forall k', In k' (mkeys m) -> tlt k k') -> ins k v m = (k, v) :: m.
+Proof.
+  destruct m as [|[k2 v2] m]; simpl; intros H; auto.
+  destruct (tltb_spec k k2); auto. exfalso. apply H0, H. auto.
+Qed.
+
+Lemma sorted_tail k v m : sorted ((k, v) :: m) -> sorted m.
+Proof. intros H. inversion H; auto. Qed.
+
+Lemma sorted_head_lt k v m k' : sorted ((k, v) :: m) -> In k' (mkeys m) -> tlt k k'.
+Proof. intros H. inversion H; auto. Qed.
+
+(* ------------------------------------------------------------------ type conflicts *)
+Definition Cons (ks : list tkey) : Prop := forall a b, In a ks -> In b ks -> tclash a b = false.
+
+Lemma cons_keys_spec ks : cons_keys ks = true <-> Cons ks.
+Proof.
+  unfold cons_keys, Cons. rewrite forallb_forall. split.
+  - intros H a b Ha Hb. specialize (H a Ha). rewrite forallb_forall in H.
+    specialize (H b Hb). apply Bool.negb_true_iff in H. exact H.
+  - intros H a Ha. apply forallb_forall. intros b Hb. rewrite (H a b Ha Hb). reflexivity.
+Qed.
+
+Lemma mcons_spec m : mcons m = true <-> Cons (mkeys m).
+Proof. apply cons_keys_spec. Qed.
+
+Lemma Cons_incl a b : (forall k, In k a -> In k b) -> Cons b -> Cons a.
+Proof. intros Hi Hb x y Hx Hy. apply Hb; auto. Qed.
+
+Lemma mcons_incl a b : (forall k, In k (mkeys a) -> In k (mkeys b)) -> mcons b = true -> mcons a = true.
+Proof. intros Hi Hb. apply mcons_spec. apply mcons_spec in Hb. eapply Cons_incl; eauto. Qed.
+
+Lemma clash_sym a : forall b, clash a b = clash b a.
+Proof.
+  induction a as [| |k r IH]; intros [| |k' r']; simpl; auto.
+  rewrite (N.eqb_sym k k'), IH. reflexivity.
+Qed.
+
+Lemma tclash_sym a b : tclash a b = tclash b a.
+Proof. unfold tclash. rewrite (N.eqb_sym (fst a) (fst b)), clash_sym. reflexivity. Qed.
+
+Lemma clash_irrefl a : clash a a = false.
+Proof. induction a as [| |k r IH]; simpl; auto. rewrite IH. apply Bool.andb_false_r. Qed.
+
+(* a map whose values are all strings has no conflict *)
+Definition flat_keys (ks : list tkey) : Prop := forall a, In a ks -> snd a = KStr.
+
+Lemma flat_Cons ks : flat_keys ks -> Cons ks.
+Proof.
+  intros H a b Ha Hb. unfold tclash. rewrite (H a Ha), (H b Hb). simpl. apply Bool.andb_false_r.
+Qed.
+
 (* ------------------------------------------------------------------ streams that concatenate *)
 Definition sVS (ss : list string) : stream val := map (fun a => Val (VS a)) ss.
 Definition sVM (ms : list amap) : stream val := map (fun a => Val (VM a)) ms.
@@ -226,6 +416,13 @@ Definition mval (ms : list amap) : amap :=
   match ms with
   | [m] => m
   | _ => ins_all (List.concat ms) []
+  end.
+
+(* ... if no two chunks hold values of different types under one key *)
+Definition mok (ms : list amap) : bool :=
+  match ms with
+  | [m] => true
+  | _ => mcons (ins_all (List.concat ms) [])
   end.
 
 Lemma vals_of_map {X} (xs : list X) : vals_of (map Val xs) = Ok xs.
@@ -245,6 +442,25 @@ Proof.
   - contradiction.
   - destruct H as [H|H]; [discriminate|]. apply failed_bind, IH, H.
   - apply failed_Err.
+Qed.
+
+Lemma vals_of_nobad {X} (s : stream X) : ~ has_bad s -> exists xs, s = map Val xs.
+Proof.
+  induction s as [|[x|e] s IH]; intros H.
+  - exists []. reflexivity.
+  - destruct IH as (xs & ->).
+    + intros (e & He). apply H. exists e. right. exact He.
+    + exists (x :: xs). reflexivity.
+  - exfalso. apply H. exists e. left. reflexivity.
+Qed.
+
+Lemma has_bad_dec {X} (s : stream X) : has_bad s \/ ~ has_bad s.
+Proof.
+  induction s as [|[x|e] s IH].
+  - right. intros (e & []).
+  - destruct IH as [(e & He)|Hn]; [left; exists e; right; exact He|].
+    right. intros (e & [He|He]); [discriminate|]. apply Hn. exists e. exact He.
+  - left. exists e. left. reflexivity.
 Qed.
 
 Lemma all_str_map ss : all_str (map VS ss) = Some ss.
@@ -271,7 +487,8 @@ Proof.
   change (map VS (a :: ss)) with (VS a :: map VS ss). unfold vconcat.
   change (VS a :: map VS ss) with (map VS (a :: ss)). rewrite all_str_map. reflexivity.
 Qed.
-Lemma vconcat_VM ms : ms <> [] -> vconcat (map VM ms) = Ok (VM (ins_all (List.concat ms) [])).
+Lemma vconcat_VM ms : ms <> [] ->
+  vconcat (map VM ms) = if mcons (ins_all (List.concat ms) []) then Ok (VM (ins_all (List.concat ms) [])) else Err e_type.
 Proof.
   destruct ms as [|a ms]; [congruence|]. intros _.
   change (map VM (a :: ms)) with (VM a :: map VM ms). unfold vconcat.
@@ -281,13 +498,17 @@ Qed.
 (* a chunk list that concatenates is homogeneous *)
 Lemma vconcat_ok xs v : vconcat xs = Ok v ->
   (exists ss, ss <> [] /\ xs = map VS ss /\ v = VS (concat_strings ss)) \/
-  (exists ms, ms <> [] /\ xs = map VM ms /\ v = VM (ins_all (List.concat ms) [])).
+  (exists ms, ms <> [] /\ xs = map VM ms /\ v = VM (ins_all (List.concat ms) [])
+              /\ mcons (ins_all (List.concat ms) []) = true).
 Proof.
   destruct xs as [|[s|m] xs]; simpl; intros H; try discriminate.
   - left. destruct (all_str xs) as [ss|] eqn:E; try discriminate.
     exists (s :: ss). split; [congruence|]. apply all_str_some in E. subst. inversion H. auto.
   - right. destruct (all_map xs) as [ms|] eqn:E; try discriminate.
-    exists (m :: ms). split; [congruence|]. apply all_map_some in E. subst. inversion H. auto.
+    apply all_map_some in E. subst.
+    change (ins_all (m ++ List.concat ms) []) with (ins_all (List.concat (m :: ms)) []) in H.
+    destruct (mcons (ins_all (List.concat (m :: ms)) [])) eqn:Ec; try discriminate.
+    exists (m :: ms). split; [congruence|]. inversion H. auto.
 Qed.
 
 Lemma sVS_vals ss : sVS ss = map Val (map VS ss).
@@ -303,17 +524,22 @@ Proof.
   - change (VS a :: VS b :: map VS ss) with (map VS (a :: b :: ss)). apply vconcat_VS. congruence.
 Qed.
 
-Lemma vsconcat_sVM ms : ms <> [] -> vsconcat (sVM ms) = Ok (VM (mval ms)).
+Lemma vsconcat_sVM ms : ms <> [] ->
+  vsconcat (sVM ms) = if mok ms then Ok (VM (mval ms)) else Err e_type.
 Proof.
   intros H. unfold vsconcat, sconcat. rewrite sVM_vals, vals_of_map. simpl.
   destruct ms as [|a [|b ms]]; [congruence| |].
   - reflexivity.
-  - change (VM a :: VM b :: map VM ms) with (map VM (a :: b :: ms)). apply vconcat_VM. congruence.
+  - change (VM a :: VM b :: map VM ms) with (map VM (a :: b :: ms)). rewrite vconcat_VM by congruence.
+    reflexivity.
 Qed.
+
+Lemma vsconcat_sVM_ok ms : ms <> [] -> mok ms = true -> vsconcat (sVM ms) = Ok (VM (mval ms)).
+Proof. intros H Hk. rewrite vsconcat_sVM, Hk; auto. Qed.
 
 Lemma vsconcat_ok s v : vsconcat s = Ok v ->
   (exists ss, ss <> [] /\ s = sVS ss /\ v = VS (concat_strings ss)) \/
-  (exists ms, ms <> [] /\ s = sVM ms /\ v = VM (mval ms)).
+  (exists ms, ms <> [] /\ s = sVM ms /\ v = VM (mval ms) /\ mok ms = true).
 Proof.
   unfold vsconcat, sconcat. intros H.
   destruct (vals_of s) as [xs| |] eqn:E; simpl in H; try discriminate.
@@ -322,33 +548,17 @@ Proof.
   - inversion H; subst. destruct v as [a|m].
     + left. exists [a]. split; [congruence|]. split; auto.
       unfold concat_strings. simpl. rewrite app_nil_r_s. reflexivity.
-    + right. exists [m]. split; [congruence|]. split; auto.
-  - apply vconcat_ok in H as [(ss & Hn & E & ->)|(ms & Hn & E & ->)].
+    + right. exists [m]. split; [congruence|]. auto.
+  - apply vconcat_ok in H as [(ss & Hn & E & ->)|(ms & Hn & E & -> & Hc)].
     + left. exists ss. rewrite E, <- sVS_vals. auto.
     + right. exists ms. rewrite E, <- sVM_vals. split; auto. split; auto.
-      destruct ms as [|a [|b ms]]; try discriminate. reflexivity.
+      destruct ms as [|a [|b ms]]; try discriminate. split; [reflexivity|exact Hc].
 Qed.
 
-Definition good (s : stream val) : Prop := (exists ss, s = sVS ss) \/ (exists ms, s = sVM ms).
-
-Lemma vsconcat_good s v : vsconcat s = Ok v -> good s.
-Proof. intros H. apply vsconcat_ok in H as [(ss & _ & -> & _)|(ms & _ & -> & _)]; [left|right]; eauto. Qed.
-
-Lemma good_vsconcat s : s <> [] -> good s -> exists v, vsconcat s = Ok v.
-Proof.
-  intros Hn [(ss & ->)|(ms & ->)].
-  - rewrite vsconcat_sVS; eauto. destruct ss; [exfalso; apply Hn; reflexivity|congruence].
-  - rewrite vsconcat_sVM; eauto. destruct ms; [exfalso; apply Hn; reflexivity|congruence].
-Qed.
-
-(* a non-empty stream whose image under an operation is good while the stream itself does
-   not concatenate: impossible — the generic way failures are shown to propagate *)
-Lemma failed_by_good s s' :
-  s <> [] -> failed (vsconcat s) -> (good s' -> good s) -> failed (vsconcat s').
-Proof.
-  intros Hn Hf Hg v Hv. apply vsconcat_good in Hv.
-  destruct (good_vsconcat s Hn (Hg Hv)) as (w & Hw). exact (Hf w Hw).
-Qed.
+Lemma in_sVS it ss : In it (sVS ss) -> exists a, it = Val (VS a).
+Proof. unfold sVS. rewrite in_map_iff. intros (a & <- & _). eauto. Qed.
+Lemma in_sVM it ms : In it (sVM ms) -> exists a, it = Val (VM a).
+Proof. unfold sVM. rewrite in_map_iff. intros (a & <- & _). eauto. Qed.
 
 Lemma sVS_inv s : (forall it, In it s -> exists a, it = Val (VS a)) -> exists ss, s = sVS ss.
 Proof.
@@ -365,19 +575,36 @@ Proof.
     destruct IH as (ms & ->); [intros; apply H; right; auto|]. exists (a :: ms). reflexivity.
 Qed.
 
-Lemma in_sVS it ss : In it (sVS ss) -> exists a, it = Val (VS a).
-Proof. unfold sVS. rewrite in_map_iff. intros (a & <- & _). eauto. Qed.
-Lemma in_sVM it ms : In it (sVM ms) -> exists a, it = Val (VM a).
-Proof. unfold sVM. rewrite in_map_iff. intros (a & <- & _). eauto. Qed.
+Lemma failed_Panic {X} : failed (@Panic X).
+Proof. intros x; discriminate. Qed.
 
-(* good is decided item by item: all string values or all map values *)
-Lemma good_items s :
-  good s <-> (forall it, In it s -> exists a, it = Val (VS a)) \/ (forall it, In it s -> exists a, it = Val (VM a)).
+Lemma failed_of_not_ok {X} (r : res X) : (forall v, r <> Ok v) -> failed r.
+Proof. auto. Qed.
+
+(* ------------------------------------------------------------------ sound streams *)
+Lemma vsconcat_bad s : has_bad s -> failed (vsconcat s).
+Proof. intros (e & H). unfold vsconcat, sconcat. apply failed_bind. eapply vals_of_bad; eauto. Qed.
+
+Lemma sound_cases s : sound s ->
+  has_bad s \/ (exists ss, ss <> [] /\ s = sVS ss) \/ (exists ms, ms <> [] /\ s = sVM ms /\ mok ms = true).
 Proof.
-  split.
-  - intros [(ss & ->)|(ms & ->)]; [left; intros; eapply in_sVS; eauto|right; intros; eapply in_sVM; eauto].
-  - intros [H|H]; [left; apply sVS_inv, H|right; apply sVM_inv, H].
+  intros [H|(v & H)]; auto. right.
+  apply vsconcat_ok in H as [(ss & Hn & -> & _)|(ms & Hn & -> & _ & Hk)]; [left|right]; eauto.
 Qed.
+
+Lemma sound_ok s v : vsconcat s = Ok v -> sound s.
+Proof. intros H. right. eauto. Qed.
+
+Lemma sound_bad s : has_bad s -> sound s.
+Proof. intros H. left. exact H. Qed.
+
+Lemma sound_box x : sound (box x).
+Proof. right. exists x. reflexivity. Qed.
+
+(* what an item-wise operation does to the error items *)
+Lemma has_bad_map (g : item val -> item val) s :
+  (forall e, g (Bad e) = Bad e) -> has_bad s -> has_bad (map g s).
+Proof. intros Hg (e & H). exists e. rewrite <- (Hg e). apply in_map, H. Qed.
 
 (* ------------------------------------------------------------------ copy *)
 (* copyItem: every copy concatenates to what the original concatenates to *)
@@ -388,22 +615,125 @@ Lemma copy_length n s : List.length (s_copy n s) = n.
 Proof. apply repeat_length. Qed.
 
 (* ------------------------------------------------------------------ output key *)
-Lemma withKey_sVS k ss : s_withKey k (sVS ss) = sVM (map (fun a => [(k, a)]) ss).
+Definition nk (k : N) (key : tkey) : tkey := (k, KSub (fst key) (snd key)).
+
+Lemma nestk_fst k e : fst (nestk k e) = nk k (fst e).
+Proof. reflexivity. Qed.
+
+(* putting keys under k keeps their order *)
+Lemma tcmp_nk k a b : tcmp (nk k a) (nk k b) = tcmp a b.
+Proof. unfold tcmp, nk. simpl. rewrite N.compare_refl. reflexivity. Qed.
+
+Lemma tltb_nk k a b : tltb (nk k a) (nk k b) = tltb a b.
+Proof. unfold tltb. rewrite tcmp_nk. reflexivity. Qed.
+Lemma teqb_nk k a b : teqb (nk k a) (nk k b) = teqb a b.
+Proof. unfold teqb. rewrite tcmp_nk. reflexivity. Qed.
+
+Lemma ins_nestk k key v acc :
+  ins (nk k key) v (map (nestk k) acc) = map (nestk k) (ins key v acc).
+Proof.
+  induction acc as [|[k2 v2] acc IH]; [reflexivity|].
+  cbn [map ins]. unfold nestk at 1 2. cbn [fst snd].
+  change (k, KSub (fst k2) (snd k2)) with (nk k k2).
+  rewrite tltb_nk, teqb_nk.
+  destruct (tltb key k2); [reflexivity|]. destruct (teqb key k2); [reflexivity|].
+  cbn [map]. rewrite IH. reflexivity.
+Qed.
+
+Lemma tcmp_marker k key : tcmp (k, KMap) (nk k key) = Lt.
+Proof. unfold tcmp, nk. simpl. rewrite N.compare_refl. reflexivity. Qed.
+
+Lemma ins_nest k key v acc : ins (nk k key) v (nest k acc) = nest k (ins key v acc).
+Proof.
+  unfold nest. cbn [ins]. unfold tltb, teqb. rewrite (tcmp_antisym (k, KMap) (nk k key)), tcmp_marker.
+  cbn [CompOpp]. rewrite ins_nestk. reflexivity.
+Qed.
+
+Lemma ins_marker k acc : ins (k, KMap) EmptyString (nest k acc) = nest k acc.
+Proof. unfold nest. cbn [ins]. rewrite tltb_irrefl, teqb_refl. reflexivity. Qed.
+
+Lemma ins_all_nestk k m acc : ins_all (map (nestk k) m) (nest k acc) = nest k (ins_all m acc).
+Proof.
+  revert acc. induction m as [|[key v] m IH]; intros acc; [reflexivity|].
+  cbn [map]. rewrite !ins_all_cons. cbn [fst snd]. change (fst (nestk k (key, v))) with (nk k key).
+  rewrite ins_nest. apply IH.
+Qed.
+
+Lemma ins_all_nest k m acc : ins_all (nest k m) (nest k acc) = nest k (ins_all m acc).
+Proof. unfold nest at 1. rewrite ins_all_cons. cbn [fst snd]. rewrite ins_marker. apply ins_all_nestk. Qed.
+
+Lemma ins_all_nest0 k m : ins_all (nest k m) [] = nest k (ins_all m []).
+Proof.
+  unfold nest at 1. rewrite ins_all_cons. cbn [fst snd ins].
+  change [((k, KMap), EmptyString)] with (nest k []). apply ins_all_nestk.
+Qed.
+
+Lemma ins_all_concat_nest k ms acc :
+  ins_all (List.concat (map (nest k) ms)) (nest k acc) = nest k (ins_all (List.concat ms) acc).
+Proof.
+  revert acc. induction ms as [|m ms IH]; intros acc; [reflexivity|].
+  cbn [map List.concat]. rewrite !ins_all_app, ins_all_nest. apply IH.
+Qed.
+
+Lemma ins_all_concat_nest0 k ms : ms <> [] ->
+  ins_all (List.concat (map (nest k) ms)) [] = nest k (ins_all (List.concat ms) []).
+Proof.
+  destruct ms as [|m ms]; [congruence|]. intros _.
+  cbn [map List.concat]. rewrite !ins_all_app, ins_all_nest0. apply ins_all_concat_nest.
+Qed.
+
+Lemma tclash_nk k a b : tclash (nk k a) (nk k b) = tclash a b.
+Proof. unfold tclash, nk. simpl. rewrite N.eqb_refl. reflexivity. Qed.
+
+Lemma mkeys_nest k m : mkeys (nest k m) = (k, KMap) :: map (nk k) (mkeys m).
+Proof. unfold nest, mkeys. cbn [map fst]. rewrite !map_map. reflexivity. Qed.
+
+Lemma mcons_nest k m : mcons (nest k m) = mcons m.
+Proof.
+  apply Bool.eq_iff_eq_true. rewrite !mcons_spec, mkeys_nest. split; intros H a b Ha Hb.
+  - rewrite <- (tclash_nk k). apply H; right; apply in_map; auto.
+  - destruct Ha as [<-|Ha], Hb as [<-|Hb].
+    + unfold tclash. simpl. apply Bool.andb_false_r.
+    + apply in_map_iff in Hb as (b' & <- & _). unfold tclash, nk. simpl. apply Bool.andb_false_r.
+    + apply in_map_iff in Ha as (a' & <- & _). unfold tclash, nk. simpl. apply Bool.andb_false_r.
+    + apply in_map_iff in Ha as (a' & <- & Ha). apply in_map_iff in Hb as (b' & <- & Hb).
+      rewrite tclash_nk. apply H; auto.
+Qed.
+
+Lemma mval_nest k ms : ms <> [] -> mval (map (nest k) ms) = nest k (mval ms).
+Proof.
+  destruct ms as [|a [|b ms]]; intros H; [congruence|reflexivity|].
+  unfold mval. cbn [map]. apply (ins_all_concat_nest0 k (a :: b :: ms)). discriminate.
+Qed.
+
+Lemma mok_nest k ms : ms <> [] -> mok (map (nest k) ms) = mok ms.
+Proof.
+  destruct ms as [|a [|b ms]]; intros H; [congruence|reflexivity|].
+  change (mok (map (nest k) (a :: b :: ms)))
+    with (mcons (ins_all (List.concat (map (nest k) (a :: b :: ms))) [])).
+  rewrite (ins_all_concat_nest0 k (a :: b :: ms)) by discriminate.
+  apply mcons_nest.
+Qed.
+
+Lemma withKey_sVS k ss : s_withKey k (sVS ss) = sVM (map (fun a => [(kstr k, a)]) ss).
 Proof. unfold s_withKey, sVS, sVM. rewrite !map_map. reflexivity. Qed.
 
-Lemma ins_all_same_key (k : N) (ss : list string) (acc : string) :
+Lemma withKey_sVM k ms : s_withKey k (sVM ms) = sVM (map (nest k) ms).
+Proof. unfold s_withKey, sVM. rewrite !map_map. reflexivity. Qed.
+
+Lemma ins_all_same_key (k : tkey) (ss : list string) (acc : string) :
   ins_all (map (fun a => (k, a)) ss) [(k, acc)] = [(k, String.append acc (concat_strings ss))].
 Proof.
   revert acc. induction ss as [|a ss IH]; intros acc.
   - unfold concat_strings. simpl. rewrite app_nil_r_s. reflexivity.
-  - simpl map. rewrite ins_all_cons. simpl. rewrite N.ltb_irrefl, N.eqb_refl, IH.
+  - simpl map. rewrite ins_all_cons. simpl. rewrite tltb_irrefl, teqb_refl, IH.
     unfold concat_strings. simpl. rewrite app_assoc_s. reflexivity.
 Qed.
 
-Lemma concat_singletons (k : N) (ss : list string) : List.concat (map (fun a => [(k, a)]) ss) = map (fun a => (k, a)) ss.
+Lemma concat_singletons (k : tkey) (ss : list string) : List.concat (map (fun a => [(k, a)]) ss) = map (fun a => (k, a)) ss.
 Proof. induction ss; simpl; congruence. Qed.
 
-Lemma mval_withKey (k : N) (ss : list string) : ss <> [] -> mval (map (fun a => [(k, a)]) ss) = [(k, concat_strings ss)].
+Lemma mval_withKey (k : tkey) (ss : list string) : ss <> [] -> mval (map (fun a => [(k, a)]) ss) = [(k, concat_strings ss)].
 Proof.
   intros H. destruct ss as [|a [|b ss]]; [congruence| |].
   - unfold concat_strings. simpl. rewrite app_nil_r_s. reflexivity.
@@ -417,47 +747,256 @@ Proof.
     rewrite ins_all_same_key. unfold concat_strings. reflexivity.
 Qed.
 
-Lemma withKey_good k s : good (s_withKey k s) -> good s.
+Lemma mcons_single k v : mcons [(k, v)] = true.
 Proof.
-  intros H. left. apply sVS_inv. intros it Hit.
-  apply good_items in H.
-  assert (Hin : In (match it with Val (VS x) => Val (VM [(k, x)]) | Val (VM _) => Bad e_type | Bad e => Bad e end)
-                   (s_withKey k s)) by (unfold s_withKey; apply in_map_iff; eauto).
-  destruct H as [H|H]; destruct (H _ Hin) as (a & Ha); destruct it as [[x|m]|e]; try discriminate; eauto.
+  apply mcons_spec. intros a b [<-|[]] [<-|[]]. unfold tclash. rewrite clash_irrefl. apply Bool.andb_false_r.
+Qed.
+
+Lemma mok_withKey (k : tkey) (ss : list string) : ss <> [] -> mok (map (fun a => [(k, a)]) ss) = true.
+Proof.
+  intros H. destruct ss as [|a [|b ss]]; [congruence|reflexivity|].
+  assert (E : mval (map (fun a0 => [(k, a0)]) (a :: b :: ss)) = [(k, concat_strings (a :: b :: ss))])
+    by (apply mval_withKey; discriminate).
+  unfold mval in E. unfold mok. cbn [map] in *. rewrite E. apply mcons_single.
 Qed.
 
 Lemma withKey_nonnil k s : s <> [] -> s_withKey k s <> [].
 Proof. destruct s; simpl; congruence. Qed.
 
-Lemma failed_Panic {X} : failed (@Panic X).
-Proof. intros x; discriminate. Qed.
+Lemma withKey_bad k s : has_bad s -> has_bad (s_withKey k s).
+Proof. apply has_bad_map. reflexivity. Qed.
 
-Lemma failed_of_not_ok {X} (r : res X) : (forall v, r <> Ok v) -> failed r.
-Proof. auto. Qed.
-
-Theorem concat_withKey_lem k s : s <> [] ->
-  agree (vsconcat (s_withKey k s)) (res_bind (vsconcat s) (v_withKey k)).
+Theorem concat_withKey_lem k s : s <> [] -> sound s ->
+  agree (vsconcat (s_withKey k s)) (res_bind (vsconcat s) (v_withKey k)) /\ sound (s_withKey k s).
 Proof.
-  intros Hn. destruct (vsconcat s) as [v| |] eqn:E.
-  - apply vsconcat_ok in E as [(ss & Hss & -> & ->)|(ms & Hms & -> & ->)]; simpl.
-    + rewrite withKey_sVS, vsconcat_sVM, mval_withKey; auto.
-      * reflexivity.
-      * destruct ss; [congruence|discriminate].
-    + destruct ms as [|m ms]; [congruence|]. exact I.
-  - apply agree_failed; [|apply failed_Err].
-    eapply failed_by_good; eauto; [rewrite E; apply failed_Err|apply withKey_good].
-  - apply agree_failed; [|apply failed_Panic].
-    eapply failed_by_good; eauto; [rewrite E; apply failed_Panic|apply withKey_good].
+  intros Hn Hs. apply sound_cases in Hs as [Hb|[(ss & Hss & ->)|(ms & Hms & -> & Hk)]].
+  - split; [|apply sound_bad, withKey_bad, Hb].
+    apply agree_failed; [apply vsconcat_bad, withKey_bad, Hb|apply failed_bind, vsconcat_bad, Hb].
+  - assert (Hm : map (fun a => [(kstr k, a)]) ss <> []) by (destruct ss; [congruence|discriminate]).
+    assert (E : vsconcat (s_withKey k (sVS ss)) = Ok (VM [(kstr k, concat_strings ss)])).
+    { rewrite withKey_sVS, vsconcat_sVM_ok; auto; [rewrite mval_withKey; auto|apply mok_withKey; auto]. }
+    split; [|eapply sound_ok; eauto]. rewrite E, vsconcat_sVS by exact Hss. reflexivity.
+  - assert (Hm : map (nest k) ms <> []) by (destruct ms; [congruence|discriminate]).
+    assert (E : vsconcat (s_withKey k (sVM ms)) = Ok (VM (nest k (mval ms)))).
+    { rewrite withKey_sVM, vsconcat_sVM_ok; auto; [rewrite mval_nest; auto|rewrite mok_nest; auto]. }
+    split; [|eapply sound_ok; eauto]. rewrite E, vsconcat_sVM_ok by auto. reflexivity.
 Qed.
 
 (* ------------------------------------------------------------------ input key *)
 Definition ol {X} (o : option X) : list X := match o with Some x => [x] | None => [] end.
 
-Lemma keyFilter_sVM k ms :
-  s_keyFilter k (sVM ms) = sVS (flat_map (fun m => ol (mlookup k m)) ms).
+(* the key below k, if this key lies below k *)
+Definition sub_key (k : N) (key : tkey) : option tkey :=
+  match key with
+  | (k', KSub a r) => if N.eqb k k' then Some (a, r) else None
+  | _ => None
+  end.
+
+Lemma sub_of_eq k e : sub_of k e = match sub_key k (fst e) with Some key' => [(key', snd e)] | None => [] end.
 Proof.
-  unfold s_keyFilter, sVM, sVS. induction ms as [|m ms IH]; simpl; auto.
-  rewrite IH, map_app. destruct (mlookup k m); reflexivity.
+  destruct e as [[k' [| |a r]] v]; unfold sub_of, sub_key; cbn [fst snd]; auto.
+  destruct (N.eqb k k'); reflexivity.
+Qed.
+
+Lemma sub_key_some k key key' : sub_key k key = Some key' <-> key = nk k key'.
+Proof.
+  destruct key as [k' [| |a r]], key' as [a' r']; unfold nk; simpl; split; intros H; try discriminate;
+    try (inversion H; fail).
+  - destruct (N.eqb_spec k k'); [|discriminate]. inversion H. subst. reflexivity.
+  - inversion H. subst. rewrite N.eqb_refl. reflexivity.
+Qed.
+
+Lemma sub_key_nk k key : sub_key k (nk k key) = Some key.
+Proof. apply sub_key_some. reflexivity. Qed.
+
+Lemma unnest_app k a b : unnest k (a ++ b) = unnest k a ++ unnest k b.
+Proof. unfold unnest. apply flat_map_app. Qed.
+
+Lemma unnest_concat k ms : unnest k (List.concat ms) = List.concat (map (unnest k) ms).
+Proof. induction ms as [|m ms IH]; [reflexivity|]. simpl. rewrite unnest_app, IH. reflexivity. Qed.
+
+Lemma unnest_keys k m key : In key (mkeys (unnest k m)) <-> In (nk k key) (mkeys m).
+Proof.
+  induction m as [|[k2 v2] m IH]; simpl; [intuition|].
+  unfold unnest in *. cbn [flat_map]. unfold mkeys in *. rewrite map_app, in_app_iff, IH.
+  rewrite sub_of_eq. cbn [fst snd].
+  destruct (sub_key k k2) as [key2|] eqn:E.
+  - apply sub_key_some in E. subst k2. simpl. split.
+    + intros [[<-|[]]|H]; auto.
+    + intros [H|H]; auto. left. left.
+      unfold nk in H. inversion H. destruct key2, key. simpl in *. congruence.
+  - simpl. split; [intros [[]|H]; auto|].
+    intros [H|H]; auto. exfalso. subst k2. rewrite sub_key_nk in E. discriminate.
+Qed.
+
+Lemma hd_has_spec k m : hd_has k m = true <-> exists key, In key (mkeys m) /\ fst key = k.
+Proof.
+  unfold hd_has. rewrite existsb_exists. split.
+  - intros ([key v] & Hin & E). apply N.eqb_eq in E. exists key. split; auto.
+    unfold mkeys. apply in_map_iff. exists (key, v). auto.
+  - intros (key & Hin & E). unfold mkeys in Hin. apply in_map_iff in Hin as ([key' v] & <- & Hin).
+    exists (key', v). split; auto. apply N.eqb_eq. simpl in *. auto.
+Qed.
+
+Lemma hd_has_false k m : hd_has k m = false <-> forall key, In key (mkeys m) -> fst key <> k.
+Proof.
+  split.
+  - intros H key Hin E. assert (hd_has k m = true) by (apply hd_has_spec; eauto). congruence.
+  - intros H. destruct (hd_has k m) eqn:E; auto. apply hd_has_spec in E as (key & Hin & Ek).
+    exfalso. eapply H; eauto.
+Qed.
+
+Lemma unnest_nil k m : hd_has k m = false -> unnest k m = [].
+Proof.
+  intros H. destruct (unnest k m) as [|[key v] u] eqn:E; auto. exfalso.
+  assert (Hin : In key (mkeys (unnest k m))) by (rewrite E; left; reflexivity).
+  apply unnest_keys in Hin. rewrite hd_has_false in H. apply (H _ Hin). reflexivity.
+Qed.
+
+Lemma hd_has_app k a b : hd_has k (a ++ b) = hd_has k a || hd_has k b.
+Proof. unfold hd_has. apply existsb_app. Qed.
+
+Lemma hd_has_keys k a b : (forall key, In key (mkeys a) <-> In key (mkeys b)) -> hd_has k a = hd_has k b.
+Proof.
+  intros H. apply Bool.eq_iff_eq_true. rewrite !hd_has_spec.
+  split; intros (key & Hin & E); exists key; split; auto; apply H; auto.
+Qed.
+
+(* the sub-map commutes with insertion into a sorted map *)
+Lemma unnest_ins k key v acc : sorted acc ->
+  unnest k (ins key v acc) =
+  match sub_key k key with
+  | Some key' => ins key' v (unnest k acc)
+  | None => unnest k acc
+  end.
+Proof.
+  induction 1 as [|k2 v2 acc Hs IH Hlt].
+  - simpl. unfold unnest. cbn [flat_map]. rewrite sub_of_eq. cbn [fst snd].
+    destruct (sub_key k key); reflexivity.
+  - cbn [ins]. destruct (tltb_spec key k2) as [Hk|Hk].
+    + (* in front *)
+      change (unnest k ((key, v) :: (k2, v2) :: acc)) with (sub_of k (key, v) ++ unnest k ((k2, v2) :: acc)).
+      rewrite sub_of_eq. cbn [fst snd]. destruct (sub_key k key) as [key'|] eqn:E; [|reflexivity].
+      apply sub_key_some in E. subst key.
+      rewrite ins_first; [reflexivity|].
+      intros k' Hk'. apply unnest_keys in Hk'. unfold tlt. rewrite <- (tcmp_nk k).
+      destruct Hk' as [<-|Hk']; [exact Hk|].
+      apply (tlt_trans _ k2); [exact Hk|]. apply Hlt, Hk'.
+    + destruct (teqb_spec key k2) as [->|Hne].
+      * (* same key *)
+        change (unnest k ((k2, String.append v2 v) :: acc)) with (sub_of k (k2, String.append v2 v) ++ unnest k acc).
+        change (unnest k ((k2, v2) :: acc)) with (sub_of k (k2, v2) ++ unnest k acc).
+        rewrite !sub_of_eq. cbn [fst snd]. destruct (sub_key k k2) as [key'|]; [|reflexivity].
+        cbn [app ins]. rewrite tltb_irrefl, teqb_refl. reflexivity.
+      * (* further on *)
+        change (unnest k ((k2, v2) :: ins key v acc)) with (sub_of k (k2, v2) ++ unnest k (ins key v acc)).
+        change (unnest k ((k2, v2) :: acc)) with (sub_of k (k2, v2) ++ unnest k acc).
+        rewrite IH. destruct (sub_key k key) as [key'|] eqn:E; [|reflexivity].
+        rewrite sub_of_eq. cbn [fst snd]. destruct (sub_key k k2) as [key2|] eqn:E2; [|reflexivity].
+        apply sub_key_some in E, E2. subst key k2. cbn [app ins].
+        assert (Hlt2 : tlt key2 key').
+        { unfold tlt. rewrite <- (tcmp_nk k). tord. }
+        destruct (tltb_spec key' key2); [tord|]. destruct (teqb_spec key' key2); [tord|]. reflexivity.
+Qed.
+
+Lemma unnest_sorted k m : sorted m -> sorted (unnest k m).
+Proof.
+  induction 1 as [|k2 v2 m Hs IH Hlt]; [constructor|].
+  change (unnest k ((k2, v2) :: m)) with (sub_of k (k2, v2) ++ unnest k m).
+  rewrite sub_of_eq. cbn [fst snd]. destruct (sub_key k k2) as [key2|] eqn:E; [|exact IH].
+  apply sub_key_some in E. subst k2. cbn [app]. constructor; auto.
+  intros k' Hk'. apply unnest_keys in Hk'. unfold tlt. rewrite <- (tcmp_nk k). apply Hlt, Hk'.
+Qed.
+
+Lemma unnest_ins_all k es acc : sorted acc ->
+  unnest k (ins_all es acc) = ins_all (unnest k es) (unnest k acc).
+Proof.
+  revert acc. induction es as [|[key v] es IH]; intros acc Hs; [reflexivity|].
+  rewrite ins_all_cons. cbn [fst snd]. rewrite IH by (apply sorted_ins, Hs).
+  rewrite unnest_ins by exact Hs.
+  change (unnest k ((key, v) :: es)) with (sub_of k (key, v) ++ unnest k es).
+  rewrite sub_of_eq. cbn [fst snd]. destruct (sub_key k key); reflexivity.
+Qed.
+
+Lemma unnest_ins_all0 k es : unnest k (ins_all es []) = ins_all (unnest k es) [].
+Proof. apply (unnest_ins_all k es []). constructor. Qed.
+
+(* chunks canonicalised one by one, then concatenated = raw entries concatenated *)
+Lemma concat_canon raws acc :
+  ins_all (List.concat (map (fun r => ins_all r []) raws)) acc = ins_all (List.concat raws) acc.
+Proof.
+  revert acc. induction raws as [|r raws IH]; intros acc; [reflexivity|].
+  cbn [map List.concat]. rewrite !ins_all_app, ins_all_canon0. apply IH.
+Qed.
+
+Lemma mval_canon raws : raws <> [] ->
+  mval (map (fun r => ins_all r []) raws) = ins_all (List.concat raws) [].
+Proof.
+  destruct raws as [|a [|b raws]]; intros H; [congruence| |].
+  - simpl. rewrite app_nil_r. reflexivity.
+  - unfold mval. cbn [map]. apply (concat_canon (a :: b :: raws)).
+Qed.
+
+Lemma mval_keys k cs : In k (mkeys (mval cs)) <-> In k (mkeys (List.concat cs)).
+Proof.
+  destruct cs as [|a [|b cs]].
+  - simpl. intuition.
+  - simpl. rewrite app_nil_r. intuition.
+  - unfold mval. rewrite keys_ins_all. simpl. intuition.
+Qed.
+
+Lemma mval_ins cs acc : ins_all (mval cs) acc = ins_all (List.concat cs) acc.
+Proof.
+  destruct cs as [|a [|b cs]].
+  - reflexivity.
+  - simpl. rewrite app_nil_r. reflexivity.
+  - unfold mval. apply ins_all_canon0.
+Qed.
+
+Lemma mhas_mval a ms : mhas a (mval ms) = mhas a (List.concat ms).
+Proof.
+  destruct (mhas a (List.concat ms)) eqn:E.
+  - apply mhas_in, mval_keys, mhas_in, E.
+  - apply mhas_notin. intros H. apply mval_keys, mhas_in in H. congruence.
+Qed.
+
+Lemma mgather_mval a ms : mgather a (mval ms) = mgather a (List.concat ms).
+Proof.
+  destruct ms as [|x [|y ms]]; [reflexivity| |].
+  - simpl. rewrite app_nil_r. reflexivity.
+  - unfold mval. rewrite mgather_ins_all by constructor. reflexivity.
+Qed.
+
+Lemma hd_has_mval k ms : hd_has k (mval ms) = hd_has k (List.concat ms).
+Proof. apply hd_has_keys. intros key. apply mval_keys. Qed.
+
+Lemma mhas_concat_false a ms : mhas a (List.concat ms) = false <-> forall m, In m ms -> mhas a m = false.
+Proof.
+  induction ms as [|m ms IH]; simpl.
+  - split; auto. intros _ ? [].
+  - rewrite mhas_app, Bool.orb_false_iff, IH. split.
+    + intros (H1 & H2) x [<-|Hx]; auto.
+    + intros H. split; [apply H; auto|intros x Hx; apply H; auto].
+Qed.
+
+Lemma hd_has_concat k ms : hd_has k (List.concat ms) = existsb (hd_has k) ms.
+Proof. induction ms as [|m ms IH]; [reflexivity|]. simpl. rewrite hd_has_app, IH. reflexivity. Qed.
+
+(* the entries below k of all chunks = those of the chunks that have something below k *)
+Lemma unnest_filter k ms :
+  unnest k (List.concat ms) = unnest k (List.concat (filter (hd_has k) ms)).
+Proof.
+  induction ms as [|m ms IH]; [reflexivity|]. cbn [filter List.concat].
+  destruct (hd_has k m) eqn:E.
+  - cbn [List.concat]. rewrite !unnest_app, IH. reflexivity.
+  - rewrite unnest_app, IH, (unnest_nil k m E). reflexivity.
+Qed.
+
+Lemma keyFilter_sVM k ms :
+  s_keyFilter k (sVM ms) = map Val (flat_map (fun m => ol (m_get k m)) ms).
+Proof.
+  unfold s_keyFilter, sVM. induction ms as [|m ms IH]; simpl; auto.
+  rewrite IH, map_app. destruct (m_get k m); reflexivity.
 Qed.
 
 Lemma lookups_concat k ms :
@@ -479,84 +1018,148 @@ Proof.
   - exact IH.
 Qed.
 
-Lemma mlookup_mval k ms : ms <> [] ->
-  mlookup k (mval ms) = if mhas k (List.concat ms) then Some (mgather k (List.concat ms)) else None.
+Lemma keyFilter_bad k s : has_bad s -> has_bad (s_keyFilter k s).
 Proof.
-  intros H. destruct ms as [|a [|b ms]]; [congruence| |].
-  - simpl. rewrite app_nil_r. reflexivity.
-  - unfold mval, mlookup. rewrite mhas_ins_all, mgather_ins_all by constructor. reflexivity.
+  intros (e & H). exists e. unfold s_keyFilter. apply in_flat_map. exists (Bad e). split; auto. left. reflexivity.
 Qed.
 
-Lemma keyFilter_good k s : good (s_keyFilter k s) -> good s.
+(* a string under k excludes, in a map without type conflict, anything else under k *)
+Lemma str_excludes k m : mcons m = true -> mhas (kstr k) m = true ->
+  forall key, In key (mkeys m) -> fst key = k -> key = kstr k.
 Proof.
-  intros H. right. apply sVM_inv. intros it Hit. apply good_items in H.
-  destruct it as [[x|m]|e]; eauto; exfalso.
-  - assert (Hin : In (Bad e_type) (s_keyFilter k s)).
-    { unfold s_keyFilter. apply in_flat_map. exists (Val (VS x)). simpl; auto. }
-    destruct H as [H|H]; destruct (H _ Hin); discriminate.
-  - assert (Hin : In (Bad e) (s_keyFilter k s)).
-    { unfold s_keyFilter. apply in_flat_map. exists (@Bad val e). simpl; auto. }
-    destruct H as [H|H]; destruct (H _ Hin); discriminate.
+  intros Hc Hh [k' r] Hin E. simpl in E. subst k'. apply mcons_spec in Hc. apply mhas_in in Hh.
+  specialize (Hc _ _ Hh Hin). unfold tclash, kstr in Hc. simpl in Hc. rewrite N.eqb_refl in Hc. simpl in Hc.
+  destruct r; try discriminate. reflexivity.
 Qed.
 
-(* the filtered stream is empty only if no chunk carries the key *)
-Lemma keyFilter_nil k s : s_keyFilter k s = [] ->
-  exists ms, s = sVM ms /\ mhas k (List.concat ms) = false.
+Lemma Cons_unnest k m : mcons m = true -> mcons (unnest k m) = true.
 Proof.
-  intros H.
-  assert (Hg : good s). { apply (keyFilter_good k). rewrite H. left. exists []. reflexivity. }
-  assert (Hall : forall it, In it s -> exists m, it = Val (VM m)).
-  { intros it Hit. destruct it as [[x|m]|e]; eauto; exfalso.
-    - assert (Hin : In (Bad e_type) (s_keyFilter k s)).
-      { unfold s_keyFilter. apply in_flat_map. exists (Val (VS x)). simpl; auto. }
-      rewrite H in Hin. contradiction.
-    - assert (Hin : In (Bad e) (s_keyFilter k s)).
-      { unfold s_keyFilter. apply in_flat_map. exists (@Bad val e). simpl; auto. }
-      rewrite H in Hin. contradiction. }
-  destruct (sVM_inv s Hall) as (ms & ->). exists ms. split; auto.
-  rewrite keyFilter_sVM in H. apply lookups_nonnil.
-  unfold sVS in H. apply map_eq_nil in H. exact H.
+  intros H. apply mcons_spec. apply mcons_spec in H. intros a b Ha Hb.
+  apply unnest_keys in Ha, Hb. rewrite <- (tclash_nk k). apply H; auto.
 Qed.
 
-Theorem concat_keyFilter_lem k s : s <> [] ->
-  (forall m, vsconcat s = Ok (VM m) -> mhas k m = true) ->
+Lemma mcons_keys a b : (forall key, In key (mkeys a) <-> In key (mkeys b)) -> mcons a = mcons b.
+Proof.
+  intros H. apply Bool.eq_iff_eq_true. split; apply mcons_incl; intros key; apply H.
+Qed.
+
+Lemma keys_ins_all0 x es : In x (mkeys (ins_all es [])) <-> In x (mkeys es).
+Proof. rewrite keys_ins_all. simpl. intuition. Qed.
+
+Lemma mcons_canon es : mcons (ins_all es []) = mcons es.
+Proof. apply mcons_keys. intros key. apply keys_ins_all0. Qed.
+
+Lemma keys_concat_in key m ms : In m ms -> In key (mkeys m) -> In key (mkeys (List.concat ms)).
+Proof.
+  intros Hm Hk. unfold mkeys in *. apply in_map_iff in Hk as (e & <- & He).
+  apply in_map. apply in_concat. exists m. auto.
+Qed.
+
+Theorem concat_keyFilter_lem k s : s <> [] -> sound s ->
+  (forall m, vsconcat s = Ok (VM m) -> m_get k m <> None) ->
   agree (vsconcat (s_keyFilter k s)) (res_bind (vsconcat s) (v_getKey k))
-  /\ s_keyFilter k s <> [].
+  /\ s_keyFilter k s <> [] /\ sound (s_keyFilter k s).
 Proof.
-  intros Hn Hk.
-  assert (Hne : s_keyFilter k s <> []).
-  { intros H. apply keyFilter_nil in H as (ms & -> & Hh).
-    assert (Hms : ms <> []) by (destruct ms; [exfalso; apply Hn; reflexivity|congruence]).
-    specialize (Hk _ (vsconcat_sVM ms Hms)).
-    assert (E := mlookup_mval k ms Hms). unfold mlookup in E. rewrite Hk, Hh in E. discriminate. }
-  split; auto.
-  destruct (vsconcat s) as [v| |] eqn:E.
-  - apply vsconcat_ok in E as [(ss & Hss & -> & ->)|(ms & Hms & -> & ->)]; simpl.
-    + destruct ss as [|a ss]; [congruence|]. exact I.
-    + specialize (Hk _ eq_refl).
-      assert (El := mlookup_mval k ms Hms). unfold mlookup in El at 1. rewrite Hk in El.
-      destruct (mhas k (List.concat ms)) eqn:Eh; [|discriminate].
-      inversion El as [Eg]. unfold mlookup. rewrite Hk, Eg.
-      rewrite keyFilter_sVM, vsconcat_sVS, lookups_concat.
-      * reflexivity.
-      * intro Hnil. apply lookups_nonnil in Hnil. congruence.
-  - apply agree_failed; [|apply failed_Err].
-    apply (failed_by_good s); [exact Hn|rewrite E; apply failed_Err|apply keyFilter_good].
-  - apply agree_failed; [|apply failed_Panic].
-    apply (failed_by_good s); [exact Hn|rewrite E; apply failed_Panic|apply keyFilter_good].
+  intros Hn Hs Hk. apply sound_cases in Hs as [Hb|[(ss & Hss & ->)|(ms & Hms & -> & Hok)]].
+  - (* an error item *)
+    pose proof (keyFilter_bad k s Hb) as Hb'. split; [|split].
+    + apply agree_failed; [apply vsconcat_bad, Hb'|apply failed_bind, vsconcat_bad, Hb].
+    + destruct Hb' as (e & He). intros E. rewrite E in He. contradiction.
+    + apply sound_bad, Hb'.
+  - (* strings: a type error in both forms *)
+    destruct ss as [|a ss]; [congruence|].
+    assert (Hb' : has_bad (s_keyFilter k (sVS (a :: ss)))) by (exists e_type; left; reflexivity).
+    split; [|split].
+    + rewrite vsconcat_sVS by discriminate. apply agree_failed; [apply vsconcat_bad, Hb'|apply failed_Err].
+    + discriminate.
+    + apply sound_bad, Hb'.
+  - (* maps *)
+    specialize (Hk (mval ms)). rewrite vsconcat_sVM_ok in Hk by auto. specialize (Hk eq_refl).
+    rewrite vsconcat_sVM_ok by auto. cbn [res_bind v_getKey]. rewrite keyFilter_sVM.
+    unfold m_get in Hk |- * at 2.
+    destruct (mhas (kstr k) (mval ms)) eqn:Eh.
+    + (* a string sits under k *)
+      assert (Hchunk : forall m, In m ms -> m_get k m = option_map VS (mlookup (kstr k) m)).
+      { intros m Hm. unfold m_get, mlookup. destruct (mhas (kstr k) m) eqn:Em; [reflexivity|].
+        destruct (hd_has k m) eqn:Ed; [exfalso|reflexivity].
+        apply hd_has_spec in Ed as (key & Hin & Ek).
+        destruct ms as [|a [|b ms']]; [congruence| |].
+        - destruct Hm as [<-|[]]. simpl in Eh. congruence.
+        - assert (Hin' : In key (mkeys (mval (a :: b :: ms')))).
+          { apply mval_keys. eapply keys_concat_in; eauto. }
+          pose proof (str_excludes k _ Hok Eh key Hin' Ek) as ->.
+          apply mhas_in in Hin. congruence. }
+      assert (Ef : flat_map (fun m => ol (m_get k m)) ms = map VS (flat_map (fun m => ol (mlookup (kstr k) m)) ms)).
+      { clear -Hchunk. induction ms as [|m ms IH]; [reflexivity|]. cbn [flat_map].
+        rewrite map_app, IH by (intros; apply Hchunk; right; auto).
+        rewrite (Hchunk m) by (left; reflexivity). destruct (mlookup (kstr k) m); reflexivity. }
+      rewrite Ef, <- sVS_vals.
+      rewrite mhas_mval in Eh.
+      assert (Hne : flat_map (fun m => ol (mlookup (kstr k) m)) ms <> []).
+      { intros E. apply lookups_nonnil in E. congruence. }
+      rewrite vsconcat_sVS by exact Hne. rewrite lookups_concat, mgather_mval.
+      split; [reflexivity|]. split.
+      * unfold sVS. intros E. apply map_eq_nil in E. auto.
+      * right. eexists. apply vsconcat_sVS, Hne.
+    + (* a map sits under k *)
+      destruct (hd_has k (mval ms)) eqn:Ed; [clear Hk|congruence].
+      rewrite mhas_mval in Eh. rewrite hd_has_mval, hd_has_concat in Ed.
+      assert (Hchunk : forall m, In m ms ->
+                m_get k m = if hd_has k m then Some (VM (ins_all (unnest k m) [])) else None).
+      { intros m Hm. unfold m_get. rewrite (proj1 (mhas_concat_false _ ms) Eh m Hm). reflexivity. }
+      set (ms' := filter (hd_has k) ms).
+      assert (Ef : flat_map (fun m => ol (m_get k m)) ms = map VM (map (fun m => ins_all (unnest k m) []) ms')).
+      { unfold ms'. clear -Hchunk. induction ms as [|m ms IH]; [reflexivity|]. cbn [flat_map filter].
+        rewrite IH by (intros; apply Hchunk; right; auto).
+        rewrite (Hchunk m) by (left; reflexivity). destruct (hd_has k m); reflexivity. }
+      rewrite Ef, <- sVM_vals.
+      assert (Hne' : ms' <> []).
+      { unfold ms'. apply existsb_exists in Ed as (m & Hm & Hd). intros E.
+        assert (In m (filter (hd_has k) ms)) by (apply filter_In; auto). rewrite E in H. contradiction. }
+      set (cs := map (fun m => ins_all (unnest k m) []) ms').
+      assert (Hcs : cs <> []) by (unfold cs; destruct ms'; [congruence|discriminate]).
+      (* both sides are the canonical form of all the entries below k *)
+      assert (Ev : mval cs = ins_all (unnest k (List.concat ms)) []).
+      { unfold cs. rewrite <- (map_map (unnest k) (fun r => ins_all r []) ms').
+        rewrite mval_canon by (destruct ms'; [congruence|discriminate]).
+        rewrite <- unnest_concat. unfold ms'. rewrite <- unnest_filter. reflexivity. }
+      assert (Er : ins_all (unnest k (mval ms)) [] = ins_all (unnest k (List.concat ms)) []).
+      { destruct ms as [|a [|b ms0]]; [congruence| |].
+        - simpl. rewrite app_nil_r. reflexivity.
+        - unfold mval. rewrite unnest_ins_all0, ins_all_canon0. reflexivity. }
+      assert (Hokc : mok cs = true).
+      { unfold cs. destruct ms' as [|a' [|b' ms0']] eqn:Ems'; [congruence|reflexivity|].
+        change (mok (map (fun m => ins_all (unnest k m) []) (a' :: b' :: ms0')))
+          with (mcons (ins_all (List.concat (map (fun m => ins_all (unnest k m) []) (a' :: b' :: ms0'))) [])).
+        rewrite <- (map_map (unnest k) (fun r => ins_all r []) (a' :: b' :: ms0')).
+        rewrite concat_canon, <- unnest_concat, <- Ems'. unfold ms'. rewrite <- unnest_filter.
+        rewrite mcons_canon.
+        destruct ms as [|a [|b ms0]]; [congruence| |].
+        - exfalso. unfold ms' in Ems'. simpl in Ems'. destruct (hd_has k a); discriminate.
+        - apply Cons_unnest. unfold mok in Hok. rewrite mcons_canon in Hok. exact Hok. }
+      rewrite vsconcat_sVM_ok by auto. rewrite Ev, Er.
+      split; [reflexivity|]. split.
+      * unfold sVM. intros E. apply map_eq_nil in E. auto.
+      * right. eexists. apply vsconcat_sVM_ok; auto.
 Qed.
 
 (* F-C04b, mechanism: when no chunk carries the key the filtered stream is simply empty
    (no error item), whereas the value form fails *)
-Lemma keyFilter_missing k ms : ms <> [] -> mhas k (mval ms) = false ->
+Lemma keyFilter_missing k ms : ms <> [] -> mok ms = true -> m_get k (mval ms) = None ->
   s_keyFilter k (sVM ms) = [] /\ res_bind (vsconcat (sVM ms)) (v_getKey k) = Err e_nokey.
 Proof.
-  intros Hms Hh. split.
-  - rewrite keyFilter_sVM. unfold sVS.
-    assert (E := mlookup_mval k ms Hms). unfold mlookup in E at 1. rewrite Hh in E.
-    destruct (mhas k (List.concat ms)) eqn:Eh; [discriminate|].
-    apply lookups_nonnil in Eh. rewrite Eh. reflexivity.
-  - rewrite vsconcat_sVM by exact Hms. simpl. unfold mlookup. rewrite Hh. reflexivity.
+  intros Hms Hok Hh. split.
+  - rewrite keyFilter_sVM. unfold m_get in Hh.
+    destruct (mhas (kstr k) (mval ms)) eqn:Eh; [discriminate|].
+    destruct (hd_has k (mval ms)) eqn:Ed; [discriminate|].
+    rewrite mhas_mval in Eh. rewrite hd_has_mval, hd_has_concat in Ed.
+    assert (E : flat_map (fun m => ol (m_get k m)) ms = []).
+    { clear Hh Hok Hms. induction ms as [|m ms IH]; [reflexivity|]. cbn [flat_map].
+      simpl in Eh, Ed. rewrite mhas_app in Eh. apply Bool.orb_false_iff in Eh as (E1 & E2).
+      apply Bool.orb_false_iff in Ed as (D1 & D2).
+      rewrite IH by auto. unfold m_get. rewrite E1, D1. reflexivity. }
+    rewrite E. reflexivity.
+  - rewrite vsconcat_sVM_ok by auto. simpl. rewrite Hh. reflexivity.
 Qed.
 
 (* ------------------------------------------------------------------ merge *)
@@ -665,13 +1268,37 @@ Proof.
     + rewrite mkeys_app. apply in_or_app; left; exact Hk.
 Qed.
 
+(* maps whose top-level keys are disjoint *)
+Definition hdisj (a b : amap) : Prop := forall k, In k (mheads a) -> ~ In k (mheads b).
+
+Lemma head_of_key key m : In key (mkeys m) -> In (fst key) (mheads m).
+Proof.
+  unfold mkeys, mheads. intros H. apply in_map_iff in H as (e & <- & He).
+  apply in_map_iff. exists e. auto.
+Qed.
+
+Lemma hdisj_kdisj a b : hdisj a b -> kdisj a b.
+Proof. intros H key Ha Hb. apply (H (fst key)); apply head_of_key; auto. Qed.
+
+Fixpoint phdisj (l : list amap) : Prop :=
+  match l with
+  | [] => True
+  | a :: r => (forall b, In b r -> hdisj a b) /\ phdisj r
+  end.
+
+Lemma phdisj_pdisj l : phdisj l -> pdisj l.
+Proof.
+  induction l as [|a l IH]; simpl; auto. intros (H & Hp). split; auto.
+  intros b Hb. apply hdisj_kdisj, H, Hb.
+Qed.
+
 Lemma disjoint_keys_spec seen ms : disjoint_keys seen ms = true ->
-  pdisj ms /\ forall m, In m ms -> forall k, In k (mkeys m) -> ~ In k seen.
+  phdisj ms /\ forall m, In m ms -> forall k, In k (mheads m) -> ~ In k seen.
 Proof.
   revert seen. induction ms as [|m ms IH]; simpl; intros seen H.
   - split; [exact I|intros ? F; contradiction].
   - apply andb_prop in H as [H1 H2]. destruct (IH _ H2) as (Hp & Hs).
-    assert (Hm : forall k, In k (mkeys m) -> ~ In k seen).
+    assert (Hm : forall k, In k (mheads m) -> ~ In k seen).
     { intros k Hk Hin. rewrite forallb_forall in H1. specialize (H1 _ Hk).
       apply Bool.negb_true_iff in H1.
       assert (existsb (N.eqb k) seen = true) by (apply existsb_exists; exists k; split; auto; apply N.eqb_refl).
@@ -681,22 +1308,6 @@ Proof.
     + intros m' [<-|Hm'] k Hk; auto. intros Hin. apply (Hs m' Hm' k Hk). apply in_or_app; auto.
 Qed.
 
-Lemma mval_keys k cs : In k (mkeys (mval cs)) <-> In k (mkeys (List.concat cs)).
-Proof.
-  destruct cs as [|a [|b cs]].
-  - simpl. intuition.
-  - simpl. rewrite app_nil_r. intuition.
-  - unfold mval. rewrite keys_ins_all. simpl. intuition.
-Qed.
-
-Lemma mval_ins cs acc : ins_all (mval cs) acc = ins_all (List.concat cs) acc.
-Proof.
-  destruct cs as [|a [|b cs]].
-  - reflexivity.
-  - simpl. rewrite app_nil_r. reflexivity.
-  - unfold mval. apply ins_all_canon0.
-Qed.
-
 (* Forall2-free formulation: sources given as chunk-map lists *)
 Lemma sources_ins css acc :
   ins_all (List.concat (map mval css)) acc = ins_all (List.concat (map entries (map sVM css))) acc.
@@ -704,7 +1315,6 @@ Proof.
   revert acc. induction css as [|cs css IH]; intros acc; simpl; auto.
   rewrite !ins_all_app, mval_ins, entries_sVM, IH. reflexivity.
 Qed.
-
 
 Lemma pdisj_map_keys {X} (f g : X -> amap) (l : list X) :
   (forall x k, In k (mkeys (g x)) -> In k (mkeys (f x))) -> pdisj (map f l) -> pdisj (map g l).
@@ -723,13 +1333,33 @@ Proof.
   assert (cs <> []) by (apply H; auto). destruct cs; [congruence|]. simpl. lia.
 Qed.
 
+(* no conflict within any of the maps, no top-level key in two of them: no conflict in their union *)
+Lemma Cons_union ms : phdisj ms -> (forall m, In m ms -> mcons m = true) -> mcons (List.concat ms) = true.
+Proof.
+  intros Hp Hc. apply mcons_spec. intros a b Ha Hb.
+  unfold mkeys in Ha, Hb. rewrite concat_map in Ha, Hb.
+  apply in_concat in Ha as (ka & Hka & Ha). apply in_concat in Hb as (kb & Hkb & Hb).
+  apply in_map_iff in Hka as (ma & <- & Hma). apply in_map_iff in Hkb as (mb & <- & Hmb).
+  fold (mkeys ma) in Ha. fold (mkeys mb) in Hb.
+  assert (Hsame : ma = mb -> tclash a b = false).
+  { intros <-. specialize (Hc ma Hma). apply mcons_spec in Hc. apply Hc; auto. }
+  assert (Hdiff : hdisj ma mb \/ hdisj mb ma -> tclash a b = false).
+  { intros Hd. unfold tclash. destruct (N.eqb_spec (fst a) (fst b)) as [E|]; [|reflexivity]. exfalso.
+    destruct Hd as [Hd|Hd].
+    - apply (Hd (fst a)); [apply head_of_key, Ha|rewrite E; apply head_of_key, Hb].
+    - apply (Hd (fst b)); [apply head_of_key, Hb|rewrite <- E; apply head_of_key, Ha]. }
+  clear Hc Ha Hb. induction ms as [|m ms IH]; [contradiction|].
+  destruct Hp as (Hm & Hp). destruct Hma as [<-|Hma], Hmb as [<-|Hmb]; auto.
+Qed.
+
 Lemma concat_merge_core css t :
   (forall cs, In cs css -> cs <> []) -> 2 <= List.length css ->
   Interleaving (map sVM css) t ->
   disjoint_keys [] (map mval css) = true ->
+  forallb mcons (map mval css) = true ->
   vsconcat t = Ok (VM (ins_all (List.concat (map mval css)) [])).
 Proof.
-  intros Hne Hlen Hil Hd.
+  intros Hne Hlen Hil Hd Hc.
   assert (Hall : forall it, In it t -> exists m, it = Val (VM m)).
   { intros it Hit. destruct (interleaving_in _ _ Hil it Hit) as (l & Hl & Hx).
     apply in_map_iff in Hl as (cs & <- & _). eapply in_sVM; eauto. }
@@ -737,38 +1367,44 @@ Proof.
   assert (Hl2 : 2 <= List.length tm).
   { apply interleaving_length in Hil. unfold sVM at 1 in Hil. rewrite map_length in Hil.
     rewrite Hil. pose proof (concat_sVM_length css Hne). lia. }
-  rewrite vsconcat_sVM by (destruct tm; [simpl in Hl2; lia|congruence]).
-  do 2 f_equal.
+  apply disjoint_keys_spec in Hd as (Hp & _).
   assert (Emv : mval tm = ins_all (List.concat tm) []).
   { destruct tm as [|a [|b tm]]; simpl in Hl2; try lia. reflexivity. }
-  rewrite Emv, <- entries_sVM.
-  rewrite (interleave_entries _ _ Hil).
-  - symmetry. apply sources_ins.
-  - apply disjoint_keys_spec in Hd as (Hp & _).
-    rewrite map_map. revert Hp. apply pdisj_map_keys.
-    intros cs k Hk. rewrite entries_sVM in Hk. apply mval_keys, Hk.
+  assert (Eall : ins_all (List.concat tm) [] = ins_all (List.concat (map mval css)) []).
+  { rewrite <- entries_sVM. rewrite (interleave_entries _ _ Hil).
+    - symmetry. apply sources_ins.
+    - apply phdisj_pdisj in Hp.
+      rewrite map_map. revert Hp. apply pdisj_map_keys.
+      intros cs k Hk. rewrite entries_sVM in Hk. apply mval_keys, Hk. }
+  assert (Hok : mok tm = true).
+  { destruct tm as [|a [|b tm]]; simpl in Hl2; try lia.
+    unfold mok. rewrite Eall, mcons_canon. apply Cons_union; auto.
+    rewrite forallb_forall in Hc. exact Hc. }
+  rewrite vsconcat_sVM_ok; auto; [|destruct tm; [simpl in Hl2; lia|congruence]].
+  rewrite Emv, Eall. reflexivity.
 Qed.
 
-(* every order-preserving interleaving of key-disjoint map streams concatenates to the
-   merge (mergeMap) of the concatenations of the sources *)
+(* every order-preserving interleaving of map streams whose top-level keys are disjoint
+   concatenates to the merge (mergeMap) of the concatenations of the sources *)
 Theorem concat_merge_lem ls ms t :
   Forall2 (fun s m => vsconcat s = Ok (VM m)) ls ms ->
   2 <= List.length ls ->
   Interleaving ls t ->
   disjoint_keys [] ms = true ->
+  forallb mcons ms = true ->
   vsconcat t = v_merge (map VM ms).
 Proof.
-  intros HF Hlen Hil Hd.
+  intros HF Hlen Hil Hd Hc.
   assert (Hcss : exists css, ls = map sVM css /\ ms = map mval css /\ forall cs, In cs css -> cs <> []).
   { clear -HF. induction HF as [|s m ls ms Hs HF IH].
     - exists []. repeat split; auto.
     - destruct IH as (css & -> & -> & Hne).
-      apply vsconcat_ok in Hs as [(ss & _ & _ & Hv)|(cs & Hcs & -> & Hv)]; [discriminate|].
+      apply vsconcat_ok in Hs as [(ss & _ & _ & Hv)|(cs & Hcs & -> & Hv & _)]; [discriminate|].
       inversion Hv; subst. exists (cs :: css). repeat split; auto.
       intros c [<-|Hc]; auto. }
   destruct Hcss as (css & -> & -> & Hne).
   rewrite map_length in Hlen.
-  rewrite (concat_merge_core css t Hne Hlen Hil Hd).
+  rewrite (concat_merge_core css t Hne Hlen Hil Hd Hc).
   unfold v_merge.
   destruct css as [|a [|b css]]; simpl in Hlen; try lia.
   change (map VM (map mval (a :: b :: css))) with (VM (mval a) :: VM (mval b) :: map VM (map mval css)).
@@ -776,16 +1412,39 @@ Proof.
   rewrite all_map_map, Hd. reflexivity.
 Qed.
 
-(* a source that does not concatenate (error item, mixed types) makes the merged stream
-   not concatenate either; an empty source is simply absent from the merge *)
+(* a source that does not concatenate (error item, mixed types, a type conflict between its
+   chunks) makes the merged stream not concatenate either; an empty source is simply absent
+   from the merge *)
 Lemma merge_failed ls t s :
   Interleaving ls t -> In s ls -> s <> [] -> failed (vsconcat s) -> failed (vsconcat t).
 Proof.
-  intros Hil Hs Hn Hf. apply (failed_by_good s); auto.
-  intros Hg. apply good_items in Hg. apply good_items.
-  destruct Hg as [Hg|Hg]; [left|right]; intros it Hit; apply Hg;
-    eapply interleaving_in_rev; eauto.
+  intros Hil Hs Hn Hf v Hv.
+  assert (Hsub : forall it, In it s -> In it t) by (intros it Hit; eapply interleaving_in_rev; eauto).
+  assert (Hlen : List.length s <= List.length t).
+  { rewrite (interleaving_length _ _ Hil). clear -Hs. induction ls as [|l ls IH]; [contradiction|].
+    simpl. rewrite app_length. destruct Hs as [->|Hs]; [lia|]. specialize (IH Hs). lia. }
+  apply vsconcat_ok in Hv as [(ss & _ & -> & _)|(tm & _ & -> & _ & Hok)].
+  - destruct (sVS_inv s) as (ss' & ->); [intros it Hit; eapply in_sVS, Hsub, Hit|].
+    eapply Hf. apply vsconcat_sVS. destruct ss'; [exfalso; apply Hn; reflexivity|discriminate].
+  - destruct (sVM_inv s) as (cs & ->); [intros it Hit; eapply in_sVM, Hsub, Hit|].
+    assert (Hcs : cs <> []) by (destruct cs; [exfalso; apply Hn; reflexivity|discriminate]).
+    eapply Hf. apply vsconcat_sVM_ok; auto.
+    destruct cs as [|a [|b cs]]; [congruence|reflexivity|].
+    unfold sVM in Hlen. rewrite !map_length in Hlen.
+    destruct tm as [|a' [|b' tm]]; simpl in Hlen; try lia.
+    unfold mok in *. rewrite mcons_canon in *.
+    eapply mcons_incl; [|exact Hok].
+    intros key Hk. unfold mkeys in Hk. apply in_map_iff in Hk as (e & <- & He).
+    apply in_concat in He as (m & Hm & He).
+    assert (Hm' : In m (a' :: b' :: tm)).
+    { assert (Hit : In (Val (VM m)) (sVM (a' :: b' :: tm))) by (apply Hsub; unfold sVM; apply (in_map (fun a => Val (VM a))), Hm).
+      unfold sVM in Hit. apply in_map_iff in Hit as (m' & E & Hm'). inversion E. subst. exact Hm'. }
+    apply (keys_concat_in _ m); auto. unfold mkeys. apply in_map, He.
 Qed.
+
+Lemma merge_bad {X} (ls : list (stream X)) t s :
+  Interleaving ls t -> In s ls -> has_bad s -> has_bad t.
+Proof. intros Hil Hs (e & He). exists e. eapply interleaving_in_rev; eauto. Qed.
 
 Lemma merge_nonnil {X} (ls : list (list X)) t s :
   Interleaving ls t -> In s ls -> s <> [] -> t <> [].
@@ -796,15 +1455,15 @@ Qed.
 
 (* F-C04: two sources carrying the same key. mergeMap rejects the values, the merged
    stream concatenates — to a value that depends on the interleaving. *)
-Definition dup_src1 : stream val := [Val (VM [(0%N, "A"%string)])].
-Definition dup_src2 : stream val := [Val (VM [(0%N, "B"%string)])].
+Definition dup_src1 : stream val := [Val (VM [(kstr 0, "A"%string)])].
+Definition dup_src2 : stream val := [Val (VM [(kstr 0, "B"%string)])].
 
 Lemma fanin_dupkey_witness :
-  v_merge [VM [(0%N, "A"%string)]; VM [(0%N, "B"%string)]] = Err e_dupkey
+  v_merge [VM [(kstr 0, "A"%string)]; VM [(kstr 0, "B"%string)]] = Err e_dupkey
   /\ Interleaving [dup_src1; dup_src2] (dup_src1 ++ dup_src2)
   /\ Interleaving [dup_src1; dup_src2] (dup_src2 ++ dup_src1)
-  /\ vsconcat (dup_src1 ++ dup_src2) = Ok (VM [(0%N, "AB"%string)])
-  /\ vsconcat (dup_src2 ++ dup_src1) = Ok (VM [(0%N, "BA"%string)]).
+  /\ vsconcat (dup_src1 ++ dup_src2) = Ok (VM [(kstr 0, "AB"%string)])
+  /\ vsconcat (dup_src2 ++ dup_src1) = Ok (VM [(kstr 0, "BA"%string)]).
 Proof.
   repeat split; try reflexivity.
   - apply (il_cons [] _ [] [dup_src2]). apply (il_cons [[]] _ [] []).
